@@ -15,28 +15,36 @@ open Midgard.TimeScale (Row Consts)
 
 /-! ### Calendar (proleptic Gregorian, days counted from 2000-01-01) -/
 
-/-- days from 1970-01-01 of a civil date (Hinnant, `days_from_civil`), floor divisions -/
+/-- day of the 400-year era (counted from March 1 of year-of-era 0) of year-of-era `yoe` (March
+based), month `m`, day `d` -/
+def doeOfCivil (yoe m d : Int) : Int :=
+  let mp := if m > 2 then m - 3 else m + 9
+  let doy := (153 * mp + 2) / 5 + d - 1
+  yoe * 365 + yoe / 4 - yoe / 100 + doy
+
+/-- days from 1970-01-01 of a civil date (Hinnant, `days_from_civil`); all divisors are positive
+literals, for which `Int` division `/` is the floor division -/
 def daysFromCivil1970 (y m d : Int) : Int :=
   let y := if m ≤ 2 then y - 1 else y
-  let era := y.fdiv 400
+  let era := y / 400
   let yoe := y - era * 400
-  let mp := if m > 2 then m - 3 else m + 9
-  let doy := (153 * mp + 2).fdiv 5 + d - 1
-  let doe := yoe * 365 + yoe.fdiv 4 - yoe.fdiv 100 + doy
-  era * 146097 + doe - 719468
+  era * 146097 + doeOfCivil yoe m d - 719468
+
+/-- (year-of-era with January/February counted to the next year, month, day) of a day of the era -/
+def civilOfDoe (doe : Int) : Int × Int × Int :=
+  let yoe := (doe - doe / 1460 + doe / 36524 - doe / 146096) / 365
+  let doy := doe - (365 * yoe + yoe / 4 - yoe / 100)
+  let mp := (5 * doy + 2) / 153
+  let d := doy - (153 * mp + 2) / 5 + 1
+  let m := if mp < 10 then mp + 3 else mp - 9
+  (if m ≤ 2 then yoe + 1 else yoe, m, d)
 
 /-- civil date of a day number from 1970-01-01 (Hinnant, `civil_from_days`) -/
 def civilFromDays1970 (z : Int) : Int × Int × Int :=
   let z := z + 719468
-  let era := z.fdiv 146097
-  let doe := z - era * 146097
-  let yoe := (doe - doe.fdiv 1460 + doe.fdiv 36524 - doe.fdiv 146096).fdiv 365
-  let y := yoe + era * 400
-  let doy := doe - (365 * yoe + yoe.fdiv 4 - yoe.fdiv 100)
-  let mp := (5 * doy + 2).fdiv 153
-  let d := doy - (153 * mp + 2).fdiv 5 + 1
-  let m := if mp < 10 then mp + 3 else mp - 9
-  (if m ≤ 2 then y + 1 else y, m, d)
+  let era := z / 146097
+  let c := civilOfDoe (z - era * 146097)
+  (c.1 + era * 400, c.2.1, c.2.2)
 
 def epoch2000 : Int := 10957   -- 2000-01-01 as days from 1970-01-01
 
@@ -61,11 +69,11 @@ structure Fields where
   deriving Repr, DecidableEq
 
 def fieldsOf (dt : DateTime) : Fields :=
-  let days := dt.fdiv usPerDay
+  let days := (dt / usPerDay)
   let rem := dt - days * usPerDay
-  let (y, m, d) := civilFromDays days
-  let secs := rem.fdiv usPerSec
-  ⟨y, m, d, secs.fdiv 3600, (secs.fdiv 60) % 60, secs % 60, rem - secs * usPerSec⟩
+  let c := civilFromDays days
+  let secs := (rem / usPerSec)
+  ⟨c.1, c.2.1, c.2.2, (secs / 3600), ((secs / 60)) % 60, secs % 60, rem - secs * usPerSec⟩
 
 def ofFields (f : Fields) : DateTime :=
   daysFromCivil f.year f.month f.day * usPerDay
@@ -113,7 +121,7 @@ def jdFrac (j : JD) : Rat := j.jd2 + jdDelta j
 
 /-- `TimeDateTime._dt2jd` -/
 def dtToJds (dt : DateTime) : JD :=
-  let days := dt.fdiv usPerDay
+  let days := (dt / usPerDay)
   let rem := dt - days * usPerDay
   ⟨jd2000dt + (days : Rat), (rem : Rat) / (usPerDay : Rat)⟩
 
@@ -304,8 +312,8 @@ prints (microseconds, whole seconds, whole days) -/
 def truncTo (f : TextFmt) (dt : DateTime) : DateTime :=
   match f with
   | .isot | .iso | .yday => dt
-  | .date => dt.fdiv usPerDay * usPerDay
-  | .yyddd | .yyyyddd => dt.fdiv usPerSec * usPerSec
+  | .date => (dt / usPerDay) * usPerDay
+  | .yyddd | .yyyyddd => (dt / usPerSec) * usPerSec
 
 def textFromJds (f : TextFmt) (j : JD) : String := render f (dtFromJds j)
 def textToJds (f : TextFmt) (s : String) : Option JD := (parse? f s).map dtToJds
